@@ -289,12 +289,33 @@ theorem isTrue_rightOnly {c wl : Nat} {ctx a b : VRow} (hc : ctx.length = c) (ha
 theorem isNullV_iff (v : Value) : isNullV v = true ↔ v = .null := by
   cases v <;> simp [isNullV]
 
+/-- both sides evaluate, the first is not NULL and they compare equal (then the second is not NULL either) -/
+def eqKey (ou ov : Option Value) : Bool :=
+  match ou, ov with
+  | some u, some v => !isNullV u && (cmp u v == 0)
+  | _, _ => false
+
+theorem eqKey_comm (ou ov : Option Value) : eqKey ou ov = eqKey ov ou := by
+  cases ou with
+  | none => cases ov <;> rfl
+  | some u =>
+    cases ov with
+    | none => rfl
+    | some v =>
+      show (!isNullV u && (cmp u v == 0)) = (!isNullV v && (cmp v u == 0))
+      have hanti := cmp_antisymm u v
+      have e1 : (cmp v u == 0) = (cmp u v == 0) := by
+        rw [Bool.eq_iff_iff]; simp only [beq_iff_eq]; omega
+      rw [e1]
+      by_cases h0 : cmp u v = 0
+      · rw [isNullV_congr h0]
+      · have : (cmp u v == 0) = false := beq_eq_false_iff_ne.mpr h0
+        rw [this]; simp
+
 /-- `x = y` is TRUE iff both sides evaluate, neither is NULL and they compare equal -/
 theorem isTrue_eq (row : VRow) (x y : SExpr) :
-    isTrue row (.bin .eq x y) =
-      match eval row x, eval row y with
-      | some u, some v => !isNullV u && (cmp u v == 0)
-      | _, _ => false := by
+    isTrue row (.bin .eq x y) = eqKey (eval row x) (eval row y) := by
+  unfold eqKey
   rw [isTrue_eq_tv, eval_bin_eq]
   cases hx : eval row x with
   | none => rfl
@@ -316,10 +337,8 @@ theorem isTrue_eq (row : VRow) (x y : SExpr) :
 
 theorem keyMatch_cons (x y : SExpr) (kl kr : List SExpr) (ctx a b : VRow) :
     keyMatch (x :: kl) (y :: kr) ctx a b =
-      ((match eval (ctx ++ a) x, eval (ctx ++ b) y with
-        | some u, some v => !isNullV u && (cmp u v == 0)
-        | _, _ => false) && keyMatch kl kr ctx a b) := by
-  unfold keyMatch
+      (eqKey (eval (ctx ++ a) x) (eval (ctx ++ b) y) && keyMatch kl kr ctx a b) := by
+  unfold keyMatch eqKey
   simp only [evalAll]
   cases hx : eval (ctx ++ a) x with
   | none => simp
@@ -386,22 +405,7 @@ theorem outerKeys_match {c wl wr : Nat} {ctx a b : VRow} (hc : ctx.length = c) (
               obtain ⟨rfl, rfl⟩ := h
               rw [keyMatch_cons, outerKeys_match hc ha hb rest ks.1 ks.2 (by rw [hrec]), List.all_cons, isTrue_eq,
                 eval_rightOnly hc ha hcond.1.1.1, eval_leftOnly hc ha hb hcond.2]
-              congr 1
-              cases hu : eval (ctx ++ a) y with
-              | none => cases eval (ctx ++ b) (shiftE c wl x) <;> rfl
-              | some u =>
-                cases hv : eval (ctx ++ b) (shiftE c wl x) with
-                | none => rfl
-                | some v =>
-                  show (!isNullV u && (cmp u v == 0)) = (!isNullV v && (cmp v u == 0))
-                  have hanti := cmp_antisymm u v
-                  have e1 : (cmp v u == 0) = (cmp u v == 0) := by
-                    rw [Bool.eq_iff_iff]; simp only [beq_iff_eq]; omega
-                  rw [e1]
-                  by_cases h0 : cmp u v = 0
-                  · rw [isNullV_congr h0]
-                  · have : (cmp u v == 0) = false := by simpa using h0
-                    rw [this]; simp
+              rw [eqKey_comm]
           · cases h
       | _ => simp [outerKeys] at h
     | _ => simp [outerKeys] at h
